@@ -164,8 +164,8 @@ func Linearize(h []HOp, init uint32, finalClear bool) LinResult {
 // returned (or a Clear+Assert pair completed) while another goroutine's Assert
 // of the same waker had marked the waker but not queued it yet, and the
 // non-blocking fetch ran inside that window".
-func LinearizeRelaxed(h []HOp, init uint32) LinResult {
-	return linearize(h, init, false, true)
+func LinearizeRelaxed(h []HOp, init uint32, finalClear bool) LinResult {
+	return linearize(h, init, finalClear, true)
 }
 
 func linearize(h []HOp, init uint32, finalClear, relaxed bool) LinResult {
